@@ -50,6 +50,7 @@ type Sock struct {
 	PeerFIN    bool   // peer has closed its sending side: read returns 0 after Rx is drained
 	PeerRST    bool   // peer reset: read returns ECONNRESET, write EPIPE
 	Closed     bool   // proxy closed this fd
+	Released   bool   // closed and the descriptor number may be reused (world keeps its own pointer)
 	Slow       bool   // write oracle active on this socket
 	Unwritable bool   // last write was short / EAGAIN and the peer has not drained yet
 	Writes     int    // number of write calls that carried data
@@ -82,6 +83,7 @@ var (
 
 	ErrStop     = errors.New("vsys: no more events (end of execution)")
 	Syscalls    int
+	ReuseFds    bool // closed descriptor numbers are handed out again, lowest first (as Linux does)
 	IntnChoice  bool // when false, rand.Intn answers 0 (no choice point)
 	WriteOracle bool // master switch for short/EAGAIN deviations on Slow sockets
 )
@@ -104,9 +106,36 @@ func Reset() {
 	poolReset()
 }
 
+// NewPendingSock creates a connection that has no descriptor yet: accept() assigns one.
+func NewPendingSock(name string) *Sock { return &Sock{Fd: -1, Name: name} }
+
+func allocFd() int {
+	// like the kernel: lowest free descriptor number (closed descriptors are reused)
+	fd := fdBase + 1
+	for {
+		if o, ok := socks[fd]; !ok || (o.Closed && o.Released) {
+			break
+		}
+		fd++
+	}
+	if fd > nextFd {
+		nextFd = fd
+	}
+	return fd
+}
+
 func NewSock(name string) *Sock {
-	nextFd++
-	s := &Sock{Fd: nextFd, Name: name}
+	fd := fdBase + 1
+	for {
+		if o, ok := socks[fd]; !ok || (o.Closed && o.Released) {
+			break
+		}
+		fd++
+	}
+	if fd > nextFd {
+		nextFd = fd
+	}
+	s := &Sock{Fd: fd, Name: name}
 	socks[s.Fd] = s
 	return s
 }
@@ -269,6 +298,7 @@ func Close(fd int) error {
 		return unix.EBADF
 	}
 	s.Closed = true
+	s.Released = ReuseFds
 	if _, ok := interest[fd]; ok {
 		delInterest(fd)
 	}
@@ -291,6 +321,10 @@ func Accept(lfd int) (int, unix.Sockaddr, error) {
 	}
 	s := l.Pending[0]
 	l.Pending = l.Pending[1:]
+	if s.Fd < 0 {
+		s.Fd = allocFd()
+		socks[s.Fd] = s
+	}
 	Tracef("accept fd=%d(%s)", s.Fd, s.Name)
 	return s.Fd, &unix.SockaddrInet4{Port: s.Port, Addr: s.Addr}, nil
 }
